@@ -439,9 +439,21 @@ class Raising(Scripted):
         self._fail("gets_many", keys=list(keys))
 
 
+def _raising_excs():
+    import socket
+    import ssl
+    from pymemcache.exceptions import (MemcacheError, MemcacheUnknownError, MemcacheIllegalInputError, MemcacheServerError, MemcacheUnexpectedCloseError,
+                                       MemcacheUnknownCommandError, MemcacheClientError)
+    return [TypeError, ValueError, KeyError, AttributeError, UnicodeDecodeError.__mro__[1], OSError, MemcacheError, MemcacheUnknownError, MemcacheIllegalInputError, LookupError, EOFError,
+            # what a cache that is down, unreachable or confused raises: no class of them makes a failure a miss
+            ConnectionRefusedError, ConnectionResetError, ConnectionAbortedError, BrokenPipeError, TimeoutError, socket.timeout, socket.gaierror, socket.herror, ssl.SSLError,
+            InterruptedError, BlockingIOError, FileNotFoundError, PermissionError, MemcacheServerError, MemcacheUnexpectedCloseError, MemcacheUnknownCommandError, MemcacheClientError,
+            RuntimeError, IndexError, StopIteration, AssertionError, NotImplementedError, Exception]
+
+
 def raising_cases(tier, seed):
     from pymemcache.exceptions import MemcacheError, MemcacheUnknownError, MemcacheIllegalInputError
-    excs = [TypeError, ValueError, KeyError, AttributeError, UnicodeDecodeError.__mro__[1], OSError, MemcacheError, MemcacheUnknownError, MemcacheIllegalInputError, LookupError, EOFError]
+    excs = _raising_excs()
     for ei in range(len(excs)):
         for n in (2, 3):
             for at in range(n):
@@ -454,7 +466,7 @@ def check_raising(case):
     """caches before the failing one miss (or one of them hits); the failing cache's error is the caller's to see - it is not a
     miss: no later cache is consulted on its account"""
     from pymemcache.exceptions import MemcacheError, MemcacheUnknownError, MemcacheIllegalInputError
-    excs = [TypeError, ValueError, KeyError, AttributeError, UnicodeDecodeError.__mro__[1], OSError, MemcacheError, MemcacheUnknownError, MemcacheIllegalInputError, LookupError, EOFError]
+    excs = _raising_excs()
     ei, n, at, before_hits, op = case
     exc = excs[ei]
     log = []
